@@ -957,6 +957,7 @@ def rule_error_shape(ctx, res):
 
 
 def run(ctx, res):
+    common.rule_no_addr_canonicalisation(ctx, res)
     rule_key_tables(ctx, res)
     rule_untagged_order(ctx, res)
     rule_diagonal(ctx, res)
